@@ -2,3 +2,4 @@
 pub mod net;
 pub mod pt;
 pub mod train;
+pub mod disp;
